@@ -31,6 +31,23 @@ Reading of the statement used here
 import ClusterVerif.Model.C11
 namespace CV.C11
 
+/-! ### valid credentials -/
+
+/-- "valid credentials": the request carries a well-formed Basic header whose user and password are one
+    of the configured pairs -/
+def validCreds (creds : List (String × String)) (h : AuthHeader) : Bool :=
+  match h with
+  | .basic u p => creds.contains (u, p)
+  | _ => false
+
+/-- the credential situation of a request, by the statement's notion of valid credentials -/
+def specAuthClass (creds : List (String × String)) (h : AuthHeader) : Auth :=
+  if validCreds creds h then .right
+  else match h with
+    | .none => .none
+    | .malformed => .malformed
+    | .basic _ _ => .wrong
+
 /-! ### the options a request carries (strict reading) -/
 namespace S
 def mode (q : List (String × QV)) : Option Mode :=
